@@ -261,7 +261,13 @@ def register(R):
             'finalize_after_accounting': B(all(index_of(evs, f) > index_of(evs, jc[0]) for f in fin) if jc else False),
         }
 
-    R.contract(f'{WRK}._do_run', props=['C19'], params={}, checks=lambda c: {'returns_only_on_the_shutdown_signal': B(True)},
+    def wrk_exit_checks(c):
+        gets = [e for e in c.trace if e.kind == 'ext' and e.name == 'mpqueue.get']       # (iterations live in the loop summary)
+        from pyvc.values import to_z3_bool
+        return {'returns_only_on_the_shutdown_signal': (z3.And(B(len(gets) == 1), to_z3_bool(c.engine.value_eq(gets[-1].result, 'SHUTDOWN', c.new.st)))
+                                                        if gets else B(False))}
+
+    R.contract(f'{WRK}._do_run', props=['C19'], params={}, checks=wrk_exit_checks,
                raises={}, loops={0: LoopSpec(invariant=lambda l: {}, iteration_checks=wrk_iteration)})
 
     # worker download loop: at most _MAX_ATTEMPTS requests, each writing from the job's offset
